@@ -186,15 +186,192 @@ fn variants(text: &str) -> Vec<(&'static str, String)> {
     vec![("well-formed", text.to_owned()), ("cut-1/3", cut(1)), ("cut-2/3", cut(2))]
 }
 
+
+// ---- instruction counts (valgrind cachegrind, --cache-sim=no) ----
+// CPU time on this machine depends on what else is running (cache and memory-bus contention made
+// an 11x jump for 1.5x the tokens while the instruction count grew 1.8x), so the time-like oracle
+// that decides is the number of guest instructions executed by `gv parse-only <file>` as counted
+// by valgrind: deterministic up to hash seeds, and it sees the tokenizer, reassociation, variable
+// resolution and the definition-order check, which W does not.
+
+pub fn parse_only(path: &str) -> i32 {
+    let Ok(src) = std::fs::read_to_string(path) else { return 2 };
+    let h = std::thread::Builder::new().stack_size(1 << 30).spawn(move || {
+        let tokens = tokenize(None, &src).map(|t| t.len() as u64).unwrap_or(0);
+        let cap = 200 * (tokens + 2) * (tokens + 2) + 50_000;
+        verif_hooks::reset();
+        verif_hooks::set_parse_calls_cap(cap);
+        verif_hooks::set_order_check_calls_cap(cap);
+        let ok = match tokenize(None, &src) {
+            Ok(ts) => parse(None, &src, &ts[..], &[]).is_ok(),
+            Err(_) => false,
+        };
+        println!("tokens={tokens} ok={ok}");
+    });
+    match h.map(|h| h.join()) {
+        Ok(Ok(())) => 0,
+        _ => 3,
+    }
+}
+
+enum Ir {
+    Count(u64),
+    Died(i32),
+    Timeout,
+    Unavailable(String),
+}
+
+fn instructions(ctx: &Ctx, text: &str, timeout_s: u64) -> Ir {
+    use std::io::Read;
+    use std::process::{Command, Stdio};
+    let _ = std::fs::create_dir_all(&ctx.tmp_dir);
+    let path = format!("{}/c17-ir.g", ctx.tmp_dir);
+    if std::fs::write(&path, text).is_err() {
+        return Ir::Unavailable("cannot write input".into());
+    }
+    let Ok(exe) = std::env::current_exe() else { return Ir::Unavailable("no current_exe".into()) };
+    let child = Command::new("valgrind")
+        .args(["--tool=cachegrind", "--cache-sim=no", "--cachegrind-out-file=/dev/null", "--main-stacksize=8388608"])
+        .arg(exe)
+        .args(["parse-only", &path])
+        .stdin(Stdio::null())
+        .stdout(Stdio::null())
+        .stderr(Stdio::piped())
+        .spawn();
+    let mut child = match child {
+        Ok(c) => c,
+        Err(e) => return Ir::Unavailable(format!("valgrind did not start: {e}")),
+    };
+    let mut err = child.stderr.take().unwrap();
+    let reader = std::thread::spawn(move || {
+        let mut s = String::new();
+        let _ = err.read_to_string(&mut s);
+        s
+    });
+    let t0 = std::time::Instant::now();
+    let status = loop {
+        match child.try_wait() {
+            Ok(Some(st)) => break st,
+            Ok(None) => {
+                if t0.elapsed().as_secs() > timeout_s {
+                    let _ = child.kill();
+                    let _ = child.wait();
+                    return Ir::Timeout;
+                }
+                std::thread::sleep(std::time::Duration::from_millis(20));
+            }
+            Err(e) => return Ir::Unavailable(format!("wait: {e}")),
+        }
+    };
+    let out = reader.join().unwrap_or_default();
+    let refs = out.lines().find_map(|l| l.split("I   refs:").nth(1).map(|x| x.replace(',', "").trim().parse::<u64>().ok())).flatten();
+    match (status.code(), refs) {
+        (Some(0), Some(n)) => Ir::Count(n),
+        (Some(c), Some(_)) => Ir::Died(c),
+        (c, None) => Ir::Unavailable(format!("no instruction count in valgrind's output (exit {c:?}): {}", clip(&out, 200))),
+        (None, Some(_)) => Ir::Died(-1),
+    }
+}
+
+fn ir_baseline(ctx: &Ctx) -> Option<u64> {
+    static BASE: std::sync::OnceLock<Option<u64>> = std::sync::OnceLock::new();
+    *BASE.get_or_init(|| match instructions(ctx, "1", 120) {
+        Ir::Count(n) => Some(n),
+        _ => None,
+    })
+}
+
+fn tokens_of(src: &str) -> u64 {
+    guard(|| tokenize(None, src).map(|t| t.len() as u64).unwrap_or(0)).unwrap_or(0)
+}
+
+fn exponent(y1: f64, y0: f64, t1: u64, t0: u64) -> f64 {
+    (y1 / y0).log2() / ((t1.max(1) as f64) / (t0.max(1) as f64)).log2().max(0.5)
+}
+
+impl C17P {
+    fn ir_case(&self, ctx: &mut Ctx, idx: u64) {
+        let nforms = ctx.tier.pick(1u64, 3);
+        let fam = FAMILIES[(idx / nforms) as usize];
+        let form = (idx % nforms) as usize;
+        let max_n = ctx.tier.pick(512usize, 2048);
+        let Some(base) = ir_baseline(ctx) else {
+            ctx.inconclusive("valgrind-unavailable");
+            return;
+        };
+        ctx.max("instruction_count_baseline", base);
+        let mut prev: Option<(usize, u64, u64)> = None; // n, tokens, net instructions
+        let mut table = vec![];
+        let mut n = 64usize;
+        while n <= max_n {
+            let full = family(fam, n);
+            let (form_name, text) = variants(&full).swap_remove(form);
+            let tokens = tokens_of(&text);
+            if let Some((_, pt, _)) = prev {
+                if tokens == pt {
+                    break; // the family is capped: same input again
+                }
+            }
+            let ir = match instructions(ctx, &text, 300) {
+                Ir::Count(c) => c.saturating_sub(base),
+                Ir::Died(_) => {
+                    // cap exceeded or a crash: the in-process section reports those
+                    ctx.count("instruction-count:run-died");
+                    break;
+                }
+                Ir::Timeout => {
+                    ctx.inconclusive("instruction-count-timeout");
+                    break;
+                }
+                Ir::Unavailable(why) => {
+                    ctx.inconclusive("valgrind-unavailable");
+                    let _ = why;
+                    break;
+                }
+            };
+            ctx.eval();
+            ctx.count("instruction-count:runs");
+            if tokens >= 64 {
+                ctx.nontrivial(hash_str(&format!("ir/{fam}/{form_name}/{n}")));
+            }
+            ctx.max("max_instructions", ir);
+            if tokens > 0 {
+                ctx.max("max_instructions_per_token", ir / tokens);
+            }
+            table.push(Json::obj().set("n", Json::Int(n as i64)).set("tokens", Json::Int(tokens as i64)).set("instructions", Json::Int(ir as i64)));
+            if let Some((pn, pt, pir)) = prev {
+                if pt >= 100 && pir >= 2_000_000 && ir > 0 {
+                    let e = exponent(ir as f64, pir as f64, tokens, pt);
+                    ctx.count("instruction-count:judged-doublings");
+                    ctx.max("max_instruction_exponent_x100", (e * 100.0).max(0.0) as u64);
+                    if e > 2.5 {
+                        ctx.violation(
+                            "instruction-count-superquadratic",
+                            &format!("family {fam} ({form_name}): instructions executed by tokenize+parse grow with local exponent {e:.2} between n={pn} ({pir} instructions, {pt} tokens) and n={n} ({ir} instructions, {tokens} tokens)"),
+                            Json::obj().set("family", Json::s(fam)).set("form", Json::s(form_name)).set("n", Json::Int(n as i64)).set("tokens", Json::Int(tokens as i64)).set("instructions", Json::Int(ir as i64)).set("input_head", Json::s(&clip(&text, 120))),
+                        );
+                        break;
+                    }
+                }
+            }
+            prev = Some((n, tokens, ir));
+            if ir > 4_000_000_000 {
+                break;
+            }
+            n *= 2;
+        }
+        ctx.sample(Json::obj().set("family", Json::s(fam)).set("form", Json::Int(form as i64)).set("instruction_counts", Json::Arr(table)));
+    }
+}
+
 impl Prop for C17P {
     fn id(&self) -> &'static str {
         "C17"
     }
     fn plan(&self, tier: Tier, _seed: u64) -> Plan {
-        let _ = tier;
         let mut p = Plan::new(
-            vec![sec("families", FAMILIES.len() as u64 * 3)],
-            "34 input families (nesting, chains, definition sequences, conditionals, malformed and junk-laden variants) x 3 forms (well-formed, truncated at 1/3 and at 2/3) x sizes n = 16,32,...,2048 (quick) / 4096 (thorough); per size the parse-function invocation count W and the definition-order check invocation count (hook counters) and the thread CPU time are recorded; violation = W exceeds 200*(tokens+2)^2+50000 (cap, aborts the parse) or the local exponent log2(W(2n)/W(n)) exceeds 2.5 for n>=128, or CPU-time exponent above 2.8 where both times are >=300 ms; non-trivial = distinct (family, form, size) input with at least 64 tokens",
+            vec![sec("families", FAMILIES.len() as u64 * 3), sec("instruction-counts", FAMILIES.len() as u64 * tier.pick(1, 3))],
+            "34 input families (nesting, chains, definition sequences, conditionals, malformed and junk-laden variants) x 3 forms (well-formed, truncated at 1/3 and at 2/3). Section families: sizes n = 16,32,...,2048 (quick) / 4096 (thorough), in-process; per size the parse-function invocation count W and the definition-order check invocation count (hook counters) and the thread CPU time are recorded; violation = W exceeds 200*(tokens+2)^2+50000 (cap, aborts the parse) or the local exponent log2(W(2n)/W(n))/log2(tokens ratio) exceeds 2.5 for tokens>=100 (same for the order-check count). Section instruction-counts: `gv parse-only` (tokenize+parse of one file) is run under valgrind cachegrind --cache-sim=no for n = 64,...,512 (quick, well-formed form) / 2048 (thorough, all forms) and the guest instruction count, net of the start-up baseline, is the time measure; violation = local exponent above 2.5 where the smaller run has >=100 tokens and >=2e6 instructions. A CPU-time exponent above 2.8 (both times >=300 ms) in the in-process section is only a trigger: the two inputs are re-measured by instruction count and the violation is raised if that exponent exceeds 2.5 too; non-trivial = distinct (family, form, size) input with at least 64 tokens",
         );
         p.assumptions = vec![
             "W counts invocations of the 36 memoised parse functions; tokenizing, reassociation, variable resolution and the definition-order check are only seen by the CPU-time measure".into(),
@@ -202,10 +379,13 @@ impl Prop for C17P {
         ];
         p.floor_evaluations = 300;
         p.floor_nontrivial = 200;
-        p.case_timeout_s = 120;
+        p.case_timeout_s = 1500;
         p
     }
-    fn run_case(&self, ctx: &mut Ctx, _section: &str, idx: u64) {
+    fn run_case(&self, ctx: &mut Ctx, section: &str, idx: u64) {
+        if section == "instruction-counts" {
+            return self.ir_case(ctx, idx);
+        }
         let fam = FAMILIES[(idx / 3) as usize];
         let form = (idx % 3) as usize;
         let max_n = ctx.tier.pick(2048usize, 4096);
@@ -255,11 +435,24 @@ impl Prop for C17P {
                     }
                 }
                 if p.cpu_ms >= 300.0 && m.cpu_ms >= 300.0 {
-                    let e = (m.cpu_ms / p.cpu_ms).log2() / ((m.tokens.max(1) as f64) / (p.tokens.max(1) as f64)).log2().max(0.5);
+                    let e = exponent(m.cpu_ms, p.cpu_ms, m.tokens, p.tokens);
                     ctx.count("cpu-time-judged-doublings");
                     if e > 2.8 {
-                        ctx.violation("cpu-time-superquadratic", &format!("family {fam} ({form_name}): CPU time grows with exponent {e:.2} between n={} ({:.0} ms) and n={n} ({:.0} ms)", p.n, p.cpu_ms, m.cpu_ms), detail(&m));
-                        break;
+                        // CPU time is load-dependent here; the instruction count decides
+                        let (_, ptext) = variants(&family(fam, p.n)).swap_remove(form);
+                        let base = ir_baseline(ctx).unwrap_or(0);
+                        match (instructions(ctx, &ptext, 600), instructions(ctx, &text, 600)) {
+                            (Ir::Count(a), Ir::Count(b)) => {
+                                let (a, b) = (a.saturating_sub(base).max(1), b.saturating_sub(base).max(1));
+                                let ei = exponent(b as f64, a as f64, m.tokens, p.tokens);
+                                if ei > 2.5 {
+                                    ctx.violation("cpu-time-superquadratic", &format!("family {fam} ({form_name}): CPU time grows with exponent {e:.2} between n={} ({:.0} ms) and n={n} ({:.0} ms), and the instruction count with exponent {ei:.2} ({a} -> {b})", p.n, p.cpu_ms, m.cpu_ms), detail(&m));
+                                    break;
+                                }
+                                ctx.count("cpu-time-excess-not-confirmed-by-instruction-count");
+                            }
+                            _ => ctx.inconclusive("cpu-time-excess-could-not-be-re-measured"),
+                        }
                     }
                 }
             }
